@@ -408,6 +408,7 @@ func main() {
 	rep.Count("topology_cases_with_two_sets_only_plugins_starting_from_the_same_non_full_group", nTopoSharedHub.Load())
 	rep.Count("topology_queries", nTopoQueries.Load())
 	rep.Count("topology_sets_damaged_by_a_later_construction", nTopoDamagedLater.Load())
+	linesEvidence()
 	tm := map[string]int64{}
 	for i := range topoMembers {
 		n := fmt.Sprint(i)
@@ -488,6 +489,7 @@ func main() {
 		rep.Inconclusive("the multi-plugin monitor observed nothing (sets-only plugins=%d, shared first reference=%d, groups with spare capacity=%d)",
 			nTopoSetsOnly.Load(), nTopoSharedFirstRef.Load(), nTopoSpareCap.Load())
 	}
+	linesDemands()
 	for i, l := range layers {
 		if layerLoads[i].Load() == 0 && rep.Violations() == 0 {
 			rep.Inconclusive("layer %s was never exercised", l)
